@@ -54,3 +54,11 @@ Theorem C16_driver_reports_each_file_once :
     Permutation (map fst (d_reported st)) (dbs_of cf).
 Proof. exact driver_reports_each_file_once. Qed.
 Print Assumptions C16_driver_reports_each_file_once.
+
+(* the JUnit suite of a finished parallel run has exactly one test case per selected file *)
+Theorem C16_driver_junit_one_case_per_file :
+  forall cf sched st tr, drun cf (dst0 cf) sched = (st, tr) ->
+    match d_phase st with DDrop _ | DClose | DEnd => True | _ => False end ->
+    fst (fst (junit_totals (results st))) = length (c_files cf).
+Proof. exact driver_junit_one_case_per_file. Qed.
+Print Assumptions C16_driver_junit_one_case_per_file.
